@@ -333,12 +333,17 @@ def _pad_stream_gaps(part: spt.Part) -> None:
     """
     streams = dict()
     for el in part.iter_all(spt.GenericNote, include_subclasses=True):
-        if not isinstance(el, spt.GraceNote):
-            streams.setdefault((el.voice, el.staff), []).append(el)
+        # (a grace note has no length, but the stream has to reach its position)
+        streams.setdefault((el.voice, el.staff), []).append(el)
     for (voice, staff), elements in streams.items():
         elements.sort(key=lambda el: (el.start.t, el.end.t))
-        reach = elements[0].end.t
-        for el in elements[1:]:
+        # (fill_rests takes a grace note at the start of a measure for the
+        # start of the stream, so a gap may also be left before the first note)
+        reach = min(elements[0].start.t, part.first_point.t)
+        for m in part.iter_all(spt.Measure):
+            if m.start.t <= elements[0].start.t:
+                reach = m.start.t
+        for el in elements:
             if el.start.t > reach:
                 # no note value: the length is written as a rational value
                 rest = spt.Rest(voice=voice, staff=staff, symbolic_duration=dict())
